@@ -1,8 +1,8 @@
 //! Shadow heap behind the crate's `verif-hooks` allocator entry points.
 //!
 //! Every block the crate allocates lives in its own System allocation with a 64-byte guard zone
-//! on both sides (canary pattern), is filled with 0xAA ("never written") when handed out, is
-//! poisoned with 0xDD and quarantined (never reused within a history) when freed, and carries a
+//! on both sides (canary pattern), is filled with 0xFA ("never written") when handed out, is
+//! poisoned with 0xFD and quarantined (never reused within a history) when freed, and carries a
 //! small canonical id: a new block takes the lowest id that is not live, `realloc` keeps the id
 //! (the block always moves, so "the text did not move" is the same as "no reallocation").
 //!
@@ -17,9 +17,10 @@ use std::sync::Mutex;
 pub const GUARD: usize = 64;
 pub const LIMIT: usize = 1 << 30;
 pub const HEADER: usize = 16;
-const CANARY: u8 = 0xCA;
-const UNINIT: u8 = 0xAA;
-const POISON: u8 = 0xDD;
+// (bytes that never occur in UTF-8 text: if one shows up in a handle's own 16 bytes, it was read from outside a live block)
+pub const CANARY: u8 = 0xFB;
+pub const UNINIT: u8 = 0xFA;
+pub const POISON: u8 = 0xFD;
 
 #[derive(Debug, Clone)]
 pub struct Block {
